@@ -28,6 +28,7 @@ def dispatch (op : String) (j : Json) : R Json :=
   | "nlv" => opNLV j
   | "nlvEquals" => opNLVEquals j
   | "order" => opOrder j
+  | "orderSort" => opOrderSort j
   | "iriEquals" => opIriEquals j
   | "irisContains" => opIrisContains j
   | "coll" => opColl j
